@@ -242,7 +242,10 @@ fn apply_real<T: OutputTarget>(target: &mut T, reservations: &mut Vec<Reservatio
             }
             Err(_) => false,
         },
-        Op::WriteReserved(r, k) => target.write_bytes_into_reserved_exact(&mut reservations[r], &payload(step, k)).is_ok(),
+        Op::WriteReserved(r, k) => match reservations.get_mut(r) {
+            Some(res) => target.write_bytes_into_reserved_exact(res, &payload(step, k)).is_ok(),
+            None => false, // the model made a reservation the implementation refused: reported as a mismatch
+        },
     }
 }
 
